@@ -86,7 +86,8 @@ def tlc_cmd(args, xmx="3g", serial=False):
         m = re.search(r'-cp\s+(\S+)', txt)
         _TLC = m.group(1) if m else "/opt/veriftools/tla/tla2tools.jar"
     gc = ["-XX:+UseSerialGC"] if serial else ["-XX:+UseParallelGC", "-XX:ParallelGCThreads=4"]
-    return ["java", "-Xmx" + xmx] + gc + ["-cp", _TLC, "tlc2.TLC"] + args
+    # -Xss on the command line (JAVA_TOOL_OPTIONS does not reach the main thread, which computes the initial states)
+    return ["java", "-Xss512m", "-Xmx" + xmx] + gc + ["-cp", _TLC, "tlc2.TLC"] + args
 
 # ---------------------------------------------------------------------------------------
 KNOWN = os.path.join(VERIF, "known_findings.json")
